@@ -142,7 +142,7 @@ func main() {
 	// 1. overlay from the repository's current working tree
 	extra := map[string]string{}
 	for _, app := range cfg.AppTests {
-		extra["apps/"+app+"/verif_mon_test.go"] = filepath.Join(verifRoot, "harness", "apptests_src", app+"_test.go.src")
+		extra["apps/"+app+"/verif_mon_test.go"] = filepath.Join(verifRoot, "harness", "apptests_src", "common_test.go.src")
 	}
 	ov, err := inject.Build(repoDir, filepath.Join(work, "ov"), filepath.Join(verifRoot, "harness", "vhook_src", "verifhook.go.src"), extra, true)
 	if err != nil {
